@@ -15,7 +15,8 @@ HASHSEEDS = {"quick": [0, 1, 2, 3], "thorough": [0, 1, 2, 3, 4, 5, 6, 7]}
 BUDGET_S = {"quick": 110, "thorough": 1150}
 EXHAUSTIVE = {"quick": False, "thorough": False}
 RULE = ("random DAGs on 1..5 data columns (plus sometimes a column outside the model; single-node, edgeless and "
-        "isolated-node networks included) and 9-10-parent families, cardinalities 1..4, integer / bool / pandas "
+        "isolated-node networks included) and 9-10-parent families, cardinalities 1..4, integer (small codes, large NEIGHBOURING codes above 2^24, yyyymmdd, "
+        "around 2^31, 10^15, just below 2^53, negative) / float (values differing in the 8th-9th digit) / bool / pandas "
         "Categorical (ordered or not, with unused categories, explicit or left by boolean-mask filtering) / object "
         "columns, row index RangeIndex / shifted / permuted / gapped / duplicate / string labels / filtered, "
         "declared-but-unseen states (partial state_names dicts in shuffled order, integer states that are not "
@@ -32,7 +33,10 @@ RULE = ("random DAGs on 1..5 data columns (plus sometimes a column outside the m
         "latent-involved nodes in shuffled dict order, the rest drawn from seed -- 0 included -- and reproduced for "
         "the model), max_iter 1..3, batch_size None|1|2|3|4|7 against the number of distinct rows, atol "
         "None|0|0.01|0.2 with pgmpy's stopping rule applied to the model's iterates, default/explicit latent_card, "
-        "n_jobs 1|2, progress bar on/off, two calls on one EM object; SESSIONS: (i) one caller-owned partial "
+        "n_jobs 1|2, progress bar on/off, two calls on one EM object; latent-class models with 19-21 children of "
+        "cardinality 3-4 started from the generating parameters (every completed row has joint < 1e-10 while every "
+        "factor is >= 1/16: per-factor floor inactive), compared with the model's exact E/M-step and with an exact "
+        "rational observed-data likelihood that must not decrease over max_iter 1, 2, 3; SESSIONS: (i) one caller-owned partial "
         "state_names dict reused by 2-3 fits on folds whose observed states differ, (ii) one BayesianNetwork object "
         "through fit / fit_update / add_edge / remove_edge / remove_edges_from / remove_node / rejected fits, "
         "compared after every step with the model on the CURRENT graph and data, (iii) one estimator object through "
@@ -96,8 +100,17 @@ def gen_col(rng, card, declare_p=0.5, extra_p=0.5, force_declare=False):
     if typ == "bool":
         nextra = 0
     tot = card + nextra
+    if typ == "int" and rng.random() < 0.12:
+        typ = "float"
     if typ == "int":
-        univ = rng.sample(range(0, 12), tot)
+        # state codes: small, or large NEIGHBOURING codes (above 2^24 -- not representable in float32 --, date-like
+        # yyyymmdd, around 2^31, just below 2^53 = the largest range float64 holds exactly), negative codes
+        base = rng.choice([0, 0, 0, 0, 2**24, 20240101, 2**31 - 6, 2**53 - 13, -6, -(2**24) - 12, 10**15])
+        univ = [base + k_ for k_ in rng.sample(range(0, 12), tot)]
+    elif typ == "float":
+        # float columns whose values differ in the 8th-9th significant digit
+        base = rng.choice([1.0, 0.1, 12345.678, -3.5, 16777216.0])
+        univ = [base + k_ * abs(base) * 1e-8 for k_ in rng.sample(range(0, 12), tot)]
     elif typ == "bool":
         univ = rng.sample([False, True], tot)
     else:
@@ -403,6 +416,53 @@ def gen_em(rng, tier, latent):
     return case
 
 
+def gen_emdeep(rng, tier):
+    """latent-class model: one latent with 19-21 observed children of cardinality 3-4, started from the generating
+    parameters: every completed row has a joint probability far below pgmpy's 1e-10 floor although every single
+    factor is >= 1/16 (so the per-factor floor is inactive and the EM-ascent theorem applies)"""
+    nch = rng.choice([19, 20, 21])
+    names = rng.sample(STR_POOL, nch + 1)
+    L = nch
+    lc = rng.choice([2, 2, 3])
+    cards = [4 if rng.random() < 0.8 else 3 for _ in range(nch)]
+    cols = [gen_col(rng, c, declare_p=0.3, extra_p=0.0) for c in cards]
+    pat = {4: [[2, 3, 5, 6], [1, 4, 5, 6], [4, 4, 4, 4], [3, 3, 4, 6]], 3: [[5, 5, 6], [4, 6, 6], [6, 6, 4]]}
+    init = {}
+    lparts = {2: [[8, 8], [6, 10]], 3: [[5, 5, 6], [4, 6, 6]]}[lc]
+    lp = rng.choice(lparts)
+    init[str(L)] = {"parents": [], "table": [[[x, 16]] for x in lp]}
+    tables = []
+    for i in range(nch):
+        colsl = []
+        for _ in range(lc):
+            pcol = list(rng.choice(pat[cards[i]]))
+            rng.shuffle(pcol)
+            colsl.append(pcol)
+        tables.append(colsl)
+    rows = []
+    for _ in range(rng.choice([12, 18, 24])):
+        l = rng.choices(range(lc), weights=lp)[0]
+        rows.append([rng.choices(range(cards[i]), weights=tables[i][l])[0] for i in range(nch)])
+    # states are interned through the canonical order, the tables above are in universe order: make them agree
+    case = {"kind": "em1", "names": names, "nodes": list(range(nch)), "edges": [[L, i] for i in range(nch)],
+            "cols": cols, "rows": rows, "weights": None, "colorder": list(range(nch)), "lat": L, "lat_card": lc,
+            "mode": "init", "seed": 0, "init": init, "batch_size": rng.choice([None, 5]), "atol": 0,
+            "show_progress": False, "lc_default": False, "probe0": False, "index": rng.choice(INDEX_MODES),
+            "backend": "numpy", "em_n_jobs": 1, "objsession": False, "mseed": rng.randint(0, 10**9), "deep": True,
+            "model_iters": 1 if tier == "quick" else 2}
+    rng.shuffle(case["edges"])
+    rng.shuffle(case["colorder"])
+    # every universe state must be seen or declared so that the init tables have the right shape
+    st = col_states(case)
+    for i in range(nch):
+        if len(st[i]) != cards[i]:
+            cols[i]["declared"] = list(range(cards[i]))
+    st = col_states(case)
+    for i in range(nch):   # init = the generating parameters, rows in the canonical state order
+        init[str(i)] = {"parents": [L], "table": [[[tables[i][l][u], 16] for l in range(lc)] for u in st[i]]}
+    return case
+
+
 def _reaches(edges, a, b):
     seen, stack = set(), [a]
     while stack:
@@ -627,6 +687,8 @@ def cases(tier, seed):
         out.append(gen_em(rng, tier, True))
     for _ in range(70 * k):
         out.append(gen_session(rng, tier))
+    for _ in range(4 * k):
+        out.append(gen_emdeep(rng, tier))
     return out
 
 
@@ -704,11 +766,13 @@ def make_frame(case, rows=None, weights="case", colorder=None, drop=None):
         vals = []
         for k in keep:
             vals.append(raw(col, next(it)[i]) if k else None)
-        junk = {"int": 97, "bool": True, "cat": "__junk", "obj": "__junk"}[col["type"]]
+        junk = {"int": 97, "float": 1e9, "bool": True, "cat": "__junk", "obj": "__junk"}[col["type"]]
         vals = [junk if v is None else v for v in vals]
         nm = case["names"][i]
         if col["type"] == "int":
             data[nm] = pd.Series(vals, dtype="int64")
+        elif col["type"] == "float":
+            data[nm] = pd.Series(vals, dtype="float64")
         elif col["type"] == "bool":
             data[nm] = pd.Series(vals, dtype=bool)
         elif col["type"] == "cat":
@@ -1322,26 +1386,48 @@ def named_to_table(named, r, cfgs):
 
 
 def loglik(case, st, cpds_by_name):
-    """observed-data log-likelihood of the rows under pgmpy CPDs (latent summed out), no clamp"""
+    """observed-data log-likelihood of the rows under pgmpy CPDs (latent summed out, no floor), computed by the
+    harness in exact rational arithmetic on the CPDs' float values; only the final logarithms are floating point"""
     names = case["names"]
     L = case.get("lat")
     lat_states = list(range(case["lat_card"])) if L is not None else [None]
     total = 0.0
+    cache = {}
     for r in case["rows"]:
-        s = 0.0
-        for ls in lat_states:
+        key = tuple(r)
+        if key not in cache:
+            s = Fraction(0)
+            for ls in lat_states:
+                p = Fraction(1)
+                for nm, cpd in cpds_by_name.items():
+                    kw = {}
+                    for v in cpd.variables:
+                        k = names.index(v)
+                        kw[v] = ls if k == L else raw(case["cols"][k], r[k])
+                    p *= Fraction(cpd_at(cpd, kw))
+                s += p
+            cache[key] = float("-inf") if s <= 0 else math.log(s.numerator) - math.log(s.denominator)
+        if cache[key] == float("-inf"):
+            return float("-inf")
+        total += cache[key]
+    return total
+
+
+def min_row_joint(case, st, cpds_by_name):
+    """largest joint probability of a completed row (row, latent state) under the CPDs, per row -> list"""
+    names = case["names"]
+    L = case["lat"]
+    out = []
+    for r in sorted(set(map(tuple, case["rows"]))):
+        best = 0.0
+        for ls in range(case["lat_card"]):
             p = 1.0
             for nm, cpd in cpds_by_name.items():
-                kw = {}
-                for v in cpd.variables:
-                    k = names.index(v)
-                    kw[v] = ls if k == L else raw(case["cols"][k], r[k])
+                kw = {v: (ls if names.index(v) == L else raw(case["cols"][names.index(v)], r[names.index(v)])) for v in cpd.variables}
                 p *= cpd_at(cpd, kw)
-            s += p
-        if s <= 0:
-            return float("-inf")
-        total += math.log(s)
-    return total
+            best = max(best, p)
+        out.append(best)
+    return out
 
 
 def run_em(case, drv):
@@ -1474,6 +1560,9 @@ def run_em(case, drv):
         for i in fixed:
             g0[names[i]] = mm.estimate_cpd(names[i])
     prev_ll = loglik(case, st, g0)
+    if case.get("deep"):
+        below = sum(1 for p_ in min_row_joint(case, st, g0) if p_ < 1e-10)
+        tags.append("deep: distinct rows whose every completion has joint < 1e-10: %s" % ("all" if below == len(set(map(tuple, rows))) else ("some" if below else "none")))
 
     def as_named(entry, i):
         ps_ids = entry[1]
@@ -1489,7 +1578,7 @@ def run_em(case, drv):
     # ---- the model's iterations, with pgmpy's stopping rule: all(|old - new| <= atol + 1e-5 * |new|)
     expected = {}
     stopped, knife = None, False
-    for k in (1, 2, 3):
+    for k in (1, 2, 3)[:case.get("model_iters", 3)]:
         cpd_list = [cur[i] for i in allnodes]
         _, mrep = drv.call("c06_em_iter", [cards, cols, rows, [vid[L]], cpd_list, CLAMP,
                                            [[vid[i], gparents(i)] for i in moving]])
